@@ -144,7 +144,7 @@ def run_gcno_part(chk):
             chk.nontrivial(["err", c["mut"][0], c["mut"][1], r.get("err", "")[:40].split(" in ")[0].rstrip("0123456789 ")])
     # outcome class of the model on a sample of the stream (small inputs only)
     small = [i for i, c in enumerate(cases) if len(c["gcno"]) <= 4000 and all(len(g) <= 2000 for g in c["gcdas"])]
-    sel = chk.rng.sample(small, min(len(small), 700 if quick else 6000))
+    sel = chk.rng.sample(small, min(len(small), 700 if quick else 2500))
     model = G.run_model(chk.pid, [cases[i] for i in sel], fn="class_gcno", shard_size=120)
     dis = []
     for i, rm in zip(sel, model):
